@@ -24,10 +24,12 @@ type Program struct {
 	Contracts map[string]*Contract     // key -> contract
 	Ordered   []*Contract
 	Ghosts    map[string]*Contract // "pkgpath.Type.name"
+	GhostVars map[string]*Contract
 	Preds     map[string]*Contract // name -> pred/fn (name unique across packages)
 	Lemmas    []*Contract
 	Axioms    []*Contract
 	LoadErrs  []string
+	roMemo    map[*ssa.Function]int
 }
 
 func goEnv() []string {
@@ -58,7 +60,7 @@ func loadProgram(repo string, pkgDirs []string, trustedDir string) (*Program, er
 		return nil, err
 	}
 	P := &Program{Repo: repo, Pkgs: pkgs, SSAPkgs: map[string]*ssa.Package{}, Funcs: map[string]*ssa.Function{},
-		Contracts: map[string]*Contract{}, Ghosts: map[string]*Contract{}, Preds: map[string]*Contract{}}
+		Contracts: map[string]*Contract{}, Ghosts: map[string]*Contract{}, GhostVars: map[string]*Contract{}, Preds: map[string]*Contract{}}
 	for _, p := range pkgs {
 		for _, e := range p.Errors {
 			P.LoadErrs = append(P.LoadErrs, e.Error())
@@ -121,6 +123,8 @@ func (P *Program) addContracts(cs []*Contract) error {
 			P.Contracts[c.Key] = c
 		case "ghost":
 			P.Ghosts[c.Pkg+"."+c.Recv+"."+c.Name] = c
+		case "ghostvar":
+			P.GhostVars[c.Name] = c
 		case "pred", "fn":
 			if _, dup := P.Preds[c.Name]; dup {
 				return fmt.Errorf("%s:%d: duplicate pred %s", c.File, c.Line, c.Name)
